@@ -240,6 +240,63 @@ def leak_job(arg):
     return rep
 
 
+def _mutate_worker(arg):
+    import os
+    import dds
+    from vp import vlog
+    from checks import scen10
+
+    store, cls, root = arg
+    dds.accept_module(scen10)
+    if store == "memory_lru":
+        dds.set_store("memory", cache_objects=5)
+    else:
+        dds.set_store("local", internal_dir=os.path.join(root, "i"), data_dir=os.path.join(root, "d"), cache_objects={"local": None, "local_lru": 5, "local_lru_all": True}[store])
+    out = {}
+    for label, fail in (("failing", True), ("repaired", False)):
+        vlog.clear()
+        try:
+            out[label] = ("ok", dds.eval(scen10.p_mutating, fail, cls), vlog.snapshot())
+        except BaseException as e:  # noqa
+            out[label] = ("exc", type(e).__name__, e is vlog.raised.get("summarize"), vlog.snapshot())
+    try:
+        out["rows_path"] = ("ok", dds.load("/c10m/rows"))
+    except BaseException as e:  # noqa
+        out["rows_path"] = ("exc", type(e).__name__)
+    return out
+
+
+def mutate_job(arg):
+    """The waiting function changes a completed sub-result in place and then raises; the repaired evaluation in the same
+    process reuses the sub-result: it must be the value the sub-function returned, not the half-processed object."""
+    store, cls = arg
+    rep = core.Report("C10")
+    rep.evaluations = 1
+    case = {"mutate": list(arg)}
+    desc = "sub-result post-processed in place by a function that then raises %s, repaired evaluation in the same process (store %s)" % (cls, store)
+    with core.Scratch("vp_c10m_") as td:
+        o = core.fork_call(_mutate_worker, (store, cls, td), timeout=300)
+    if isinstance(o, core.JobFailed):
+        rep.inconclusive.append("mutate worker: %r" % (o,))
+        return rep
+    f = o["failing"]
+    rep.count("failed_evaluations")
+    if f[0] != "exc" or not f[2]:
+        rep.violate("%s: the failing evaluation gave %r instead of the raised object" % (desc, f[:3]), case, mechanism="exception-not-propagated-unchanged")
+        return rep
+    rep.count("exception_identity_confirmed")
+    r = o["repaired"]
+    rep.count("repaired_evaluations")
+    if r[0] != "ok" or r[1] != [1, 2, 3, 6]:
+        rep.violate("%s: the repaired evaluation returned %r, plain execution returns [1, 2, 3, 6] (it reused the object that the failed evaluation had half processed)" % (desc, r[1] if r[0] == "ok" else r[:2]),
+                    case, mechanism="failed-evaluation-left-mutated-subresult")
+    elif "rows_v1" in r[2] and store != "memory_lru":
+        rep.violate("%s: the completed sub-result was computed again" % desc, case, mechanism="completed-subresult-not-reused")
+    else:
+        rep.nontriv(("c10mutate",) + tuple(arg))
+    return rep
+
+
 def retry_job(arg):
     kind, store, k, cls, n = arg
     rep = core.Report("C10")
@@ -333,8 +390,9 @@ def run(tier, seed):
             rjobs.append(("retry", store, k, cls, 1 + ci % 3))
         rjobs.append(("df_twice", store, 0, "ValueError", 3))
     ljobs = [(store, cls, kl) for store in ("local", "memory", "local_lru") for cls in ("ValueError", "KeyboardInterrupt") for kl in (False, True)]
-    results = core.fork_map(lambda j: {"r": retry_job, "c": case_job, "l": leak_job}[j[0]](j[1]), [("c", j) for j in jobs] + [("r", j) for j in rjobs] + [("l", j) for j in ljobs], timeout=900)
-    for j, r in zip(jobs + [None] * (len(rjobs) + len(ljobs)), results):
+    mjobs = [(store, cls) for store in ("local", "local_lru", "local_lru_all") for cls in ("ValueError", "KeyboardInterrupt")]
+    results = core.fork_map(lambda j: {"r": retry_job, "c": case_job, "l": leak_job, "m": mutate_job}[j[0]](j[1]), [("c", j) for j in jobs] + [("r", j) for j in rjobs] + [("l", j) for j in ljobs] + [("m", j) for j in mjobs], timeout=900)
+    for j, r in zip(jobs + [None] * (len(rjobs) + len(ljobs) + len(mjobs)), results):
         if isinstance(r, core.JobFailed):
             rep.inconclusive.append("case: %r" % (r,))
             continue
@@ -351,6 +409,9 @@ def run(tier, seed):
 
 def replay(payload):
     rep = core.Report("C10")
+    if "mutate" in payload["case"]:
+        rep.merge(mutate_job(tuple(payload["case"]["mutate"])))
+        return rep
     if "leak" in payload["case"]:
         rep.merge(leak_job(tuple(payload["case"]["leak"])))
         return rep
